@@ -58,3 +58,156 @@ Theorem decoder_limits_are_the_source_constants :
   max_pointers = Gen.Consts.c_maxCompressionPointers /\
   max_name_wire = Gen.Consts.c_maxDomainNameWireOctets.
 Proof. split; reflexivity. Qed.
+
+(* ------------------------------------------------------------------ *)
+(* How much can be PRODUCED: the model-level counterpart of "allocates memory
+   bounded by a fixed multiple of the input length".  The size of a decoded
+   value counts the octets of every string and blob it holds, eight octets per
+   integer field, two per type code of a bitmap and one more per element of a
+   list; a record adds its owner text and ten octets of header fields, a question
+   four, a message twelve (definitions in Proofs/DecodeSizeProofs.v, spelled out
+   by the next theorem).  The per-record Go struct is constant and the number of
+   records is bounded above (accepted_records_bounded_by_input). *)
+From Dns Require Import Proofs.DecodeSizeProofs.
+
+Theorem the_size_measure_is :
+  (forall n, fval_size (V_n n) = 8) /\
+  (forall s, fval_size (V_s s) = lenN s) /\
+  (forall l, fval_size (V_ss l) = sumN (fun s => lenN s + 1) l) /\
+  (forall b, fval_size (V_b b) = lenN b) /\
+  (forall b, fval_size (V_enc b) = lenN b) /\
+  (forall l, fval_size (V_ns l) = 2 * lenN l) /\
+  (forall l, fval_size (V_pairs l) = sumN (fun p => lenN (snd (fst p)) + 1) l) /\
+  (forall l, fval_size (V_apl l) = sumN (fun p => lenN (snd p) + 1) l) /\
+  (forall vs, vals_size vs = sumN fval_size vs) /\
+  (forall d, rdata_size d = sumN (fun p => fval_size (snd p)) d) /\
+  (forall r, rr_size r = lenN (rr_name r) + 10 + rdata_size (rr_data r)) /\
+  (forall q, q_size q = lenN (q_name q) + 4) /\
+  (forall m, msg_size m = 12 + sumN q_size (m_question m) + sumN rr_size (m_answer m)
+                             + sumN rr_size (m_ns m) + sumN rr_size (m_extra m)).
+Proof. repeat split. Qed.
+Print Assumptions the_size_measure_is.
+
+(* 1. whatever the compression pointers claim, an accepted name is at most 1004
+   characters of text (at most 254 wire octets of labels, each octet printed as
+   at most four characters) ... *)
+Theorem decoded_name_text_is_bounded :
+  forall (msg : bytes) (off : N) (s : bytes) (off' : N),
+    unpack_name msg off = Ok (s, off') -> lenN s <= 1004.
+Proof. exact unpack_name_text_bounded. Qed.
+Print Assumptions decoded_name_text_is_bounded.
+(* ... and the bound is attained: 255 wire octets decode to 1004 characters *)
+Example decoded_name_text_bound_is_tight :
+  match unpack_name long_name_wire 0 with
+  | Ok (s, off') => lenN s = 1004 /\ off' = 255 /\ lenN long_name_wire = 255
+  | _ => False
+  end.
+Proof. vm_compute. repeat split. Qed.
+
+(* 2. every statement of a generated unpack() assigns values that hold at most
+   field_factor k octets per octet it consumed, with no additive constant; this
+   needs no assumption on the octets at all *)
+Theorem field_factors_are :
+  field_factor K_u8 = 8 /\ field_factor K_u16 = 4 /\ field_factor K_u32 = 2 /\ field_factor K_u48 = 2 /\
+  field_factor K_u64 = 1 /\ (forall c, field_factor (K_name c) = 1004) /\ field_factor K_string = 4 /\
+  field_factor K_txt = 4 /\ field_factor K_octet = 2 /\ field_factor K_any = 1 /\
+  (forall e, field_factor (K_hex e) = 1) /\ (forall e, field_factor (K_hexdash e) = 1) /\
+  (forall e, field_factor (K_b64 e) = 1) /\ (forall e, field_factor (K_b32 e) = 1) /\
+  field_factor K_a = 1 /\ field_factor K_aaaa = 1 /\ field_factor K_nsec = 16 /\ field_factor K_opt = 64 /\
+  field_factor K_svcb = 1 /\ field_factor K_apl = 5 /\ (forall c, field_factor (K_names c) = 1005) /\
+  (forall a b c d e, field_factor (K_gateway a b c d e) = 1004) /\
+  (forall k, field_factor k <= 1005).
+Proof. repeat split. exact field_factor_le. Qed.
+Print Assumptions field_factors_are.
+
+Theorem field_decoders_produce_linearly :
+  forall (got : rdata) (k : fkind) (msg : bytes) (off : N) (vs : list fval) (off' : N),
+    unpack_field got k msg off = Ok (vs, off') ->
+    off <= off' /\ vals_size vs <= field_factor k * (off' - off).
+Proof. exact unpack_field_size. Qed.
+Print Assumptions field_decoders_produce_linearly.
+Example field_decoders_produce_linearly_nonvacuous :
+  match unpack_field [] (K_names false) (long_name_wire ++ [192; 0; 192; 0]) 0 with
+  | Ok (vs, off') => vals_size vs = 3015 /\ off' = 259
+  | _ => False
+  end.
+Proof. vm_compute. repeat split. Qed.
+
+(* the EDNS0 option and SVCB parameter decoders, through their views: what an
+   option keeps is never more than its octets or a 255-octet name, a parameter
+   never more than its octets; the lists hold at most 64 (resp. 1) per octet *)
+Theorem option_views_are_bounded :
+  forall (code : N) (data b : bytes) (l : N),
+    opt_view code data = Some (b, l) -> l = lenN b /\ lenN b <= N.max (lenN data) 255.
+Proof. exact opt_view_len. Qed.
+Print Assumptions option_views_are_bounded.
+Theorem svcb_views_are_bounded :
+  forall (key : N) (data b : bytes) (l : N),
+    svcb_view key data = Some (b, l) -> lenN b <= lenN data /\ l <= lenN data.
+Proof. exact svcb_view_len. Qed.
+Print Assumptions svcb_views_are_bounded.
+Theorem option_decoder_produces_linearly :
+  forall (msg : bytes) (off : N) (l : list (N * bytes * N)) (off' : N),
+    unpack_opts msg off = Ok (l, off') -> off <= off' /\ fval_size (V_pairs l) <= 64 * (off' - off).
+Proof. exact unpack_opts_size. Qed.
+Print Assumptions option_decoder_produces_linearly.
+Theorem svcb_decoder_produces_linearly :
+  forall (msg : bytes) (off : N) (l : list (N * bytes * N)) (off' : N),
+    unpack_svcb msg off = Ok (l, off') -> off <= off' /\ fval_size (V_pairs l) <= 1 * (off' - off).
+Proof. exact unpack_svcb_size. Qed.
+Print Assumptions svcb_decoder_produces_linearly.
+Example option_decoders_nonvacuous :
+  match unpack_opts [0; 18; 0; 3; 1; 97; 0; 0; 10; 0; 3; 1; 2; 3] 0,
+        unpack_svcb [0; 0; 0; 4; 0; 3; 0; 1; 0; 3; 0; 2; 1; 187] 0 with
+  | Ok (l1, o1), Ok (l2, o2) =>
+    fval_size (V_pairs l1) = 3 + 1 + 3 + 1 /\ o1 = 14 /\ fval_size (V_pairs l2) = 4 + 1 + 2 + 1 /\ o2 = 14
+  | _, _ => False
+  end.
+Proof. vm_compute. repeat split. Qed.
+
+(* any generated unpack(), for ANY field sequence (so also every type the
+   translator will ever emit): at most 1005 octets held per octet of RDATA read *)
+Theorem rdata_decoders_produce_linearly :
+  forall (l : list ufield) (got : rdata) (msg : bytes) (off : N) (d : rdata) (off' : N),
+    unpack_fields l got msg off = Ok (d, off') ->
+    off <= off' /\ rdata_size d <= rdata_size got + 1005 * (off' - off).
+Proof. exact unpack_fields_size. Qed.
+Print Assumptions rdata_decoders_produce_linearly.
+
+(* 3. UnpackRR.  The additive 10 is only needed for the empty header that is
+   returned, without consuming anything, at the very end of the message; a
+   record that consumed octets holds at most 1005 per octet *)
+Theorem record_decoder_produces_linearly :
+  forall (msg : bytes) (off : N) (r : rr) (off' : N),
+    unpack_rr msg off = Ok (r, off') ->
+    off <= off' /\ rr_size r <= 1005 * (off' - off) + 10 /\
+    (off' <> off -> rr_size r <= 1005 * (off' - off)).
+Proof. exact unpack_rr_size. Qed.
+Print Assumptions record_decoder_produces_linearly.
+
+(* 4. Msg.Unpack: whatever it returns (complete, or cut at the first failing
+   section: flag e) holds at most 1008 octets per input octet — section counts,
+   RDLENGTHs and pointers notwithstanding *)
+Theorem message_decoder_produces_linearly :
+  forall (bs : bytes) (m : msg) (e : bool),
+    wfb bs -> unpack_msg bs = Ok (m, e) -> msg_size m <= 1008 * lenN bs.
+Proof. exact unpack_msg_size. Qed.
+Print Assumptions message_decoder_produces_linearly.
+
+(* non-vacuity, and how close to the bound hostile input gets: 2281 octets (one
+   HIP record whose 1000 rendezvous servers are pointers to a 255-octet owner
+   name) decode to 1006050 octets of values, 441 per input octet *)
+Example message_decoder_expansion_witness :
+  match unpack_msg (amp_msg 1000) with
+  | Ok (m, e) =>
+    e = false /\ lenN (amp_msg 1000) = 2281 /\ wfbb (amp_msg 1000) = true /\
+    msg_size m = 1006050 /\ 441 * 2281 < msg_size m
+  | _ => False
+  end.
+Proof. vm_compute. repeat split. Qed.
+Example record_decoder_nonvacuous :
+  match unpack_rr (amp_msg 10) 12 with
+  | Ok (r, off') => off' = 301 /\ rr_size r = 11088 /\ rr_kind r = "HIP"%string
+  | _ => False
+  end.
+Proof. vm_compute. repeat split. Qed.
